@@ -370,19 +370,25 @@ func (w *Worker) hashBytes(fn string, data []value) []value {
 			out[i] = simp(w.tc.Extract(res, 255-8*i, 248-8*i))
 		}
 	}
-	// injectivity + functional consistency against earlier applications
-	for _, a := range w.hashApps {
-		if a.fn != fn || a.out == res {
-			continue
+	if allConc {
+		// digest constants of known concrete inputs take part in the injective model (see TermCtx.Eq)
+		w.tc.hashConsts[constBig(res).String()] = hashConstRec{fn: fn, data: conc}
+	}
+	if w.eng.hashAxioms {
+		// explicit pairwise injectivity + functional consistency (redundant with the Eq rewriting; kept as an option for cross-checking)
+		for _, a := range w.hashApps {
+			if a.fn != fn || a.out == res {
+				continue
+			}
+			if a.out.IsConst() && res.IsConst() {
+				continue
+			}
+			if a.n != len(data) {
+				w.assertPC(w.tc.Not(w.tc.Eq(a.out, res)))
+				continue
+			}
+			w.assertPC(w.tc.Eq(w.tc.Eq(a.in, in), w.tc.Eq(a.out, res)))
 		}
-		if a.out.IsConst() && res.IsConst() {
-			continue
-		}
-		if a.n != len(data) {
-			w.assertPC(w.tc.Not(w.tc.Eq(a.out, res)))
-			continue
-		}
-		w.assertPC(w.tc.Eq(w.tc.Eq(a.in, in), w.tc.Eq(a.out, res)))
 	}
 	w.hashApps = append(w.hashApps, hashApp{fn: fn, in: in, n: len(data), out: res})
 	return out
